@@ -21,6 +21,13 @@ def gen_consts(steps, **over):
     return consts(**c)
 
 
+def history_consts():
+    """record, replay, record again, replay again on one long-lived recorder (in any order the model allows): what a
+    replay leaves behind must not change how the next run is recorded and replayed"""
+    return gen_consts(2, MaxRuns=4, MaxRecs=2, Classes=[K('K1')], Bodies=['plain'], InCalls=[('ia1', 1), ('ia2', 1)],
+                      OutAliases=['oa1'], Vals=['v1'], OutResults=[('val', 'v1'), ('exc', 'E1')], Ctl=[])
+
+
 def deep_consts(n):
     return consts(InCalls=[], OutAliases=['oa1'], Vals=['v1'], OutResults=[('val', 'v1')],
                   Ends=['ret'], Classes=[K('K1')], MaxSteps=n, MaxRuns=2, MaxRecs=1, Modes=['same'],
@@ -47,6 +54,7 @@ def run(rep, tier, seed):
                                             InCalls=[('ia1', 1), ('ia1', 2), ('ia2', 1)], OutAliases=['oa1'],
                                             Vals=['v1'], OutResults=[('val', 'v1'), ('exc', 'E1')]),
                          cassettes=('memory',), n_conc=2, sample=2500, cap=4000)
+            chk.generate('history', history_consts(), cassettes=('memory', 'file'), n_conc=1, sample=1500, cap=4000)
             chk.generate('deep11', deep_consts(11), cassettes=('memory', 'file', 's3'), n_conc=1, sample=150, cap=300,
                          invariants=['TypeOK', 'ReplayFaithful', 'SameOutputs'])
         else:
@@ -60,6 +68,7 @@ def run(rep, tier, seed):
                                             InCalls=[('ia1', 1), ('ia1', 2), ('ia2', 1), ('ia3', 0)], OutAliases=['oa1', 'oa2'],
                                             OutResults=[('val', 'v1'), ('exc', 'E1')]),
                          cassettes=('memory', 'file'), n_conc=1, sample=60000, cap=100000, max_states=400000)
+            chk.generate('history', history_consts(), cassettes=('memory', 'file', 's3'), n_conc=1, sample=60000, cap=100000)
             chk.generate('deep13', deep_consts(13), cassettes=('memory', 'file', 's3'), n_conc=2, sample=2000, cap=4000,
                          invariants=['TypeOK', 'ReplayFaithful', 'SameOutputs'])
             rep.exhaustive = bool(ex)
